@@ -183,6 +183,17 @@ func (m compressionMap) insert(s string, pos int) {
 	}
 }
 
+// suffixOffset is a suffix of the name being packed, s[begin:], and the
+// offset its first label was written to.
+type suffixOffset struct{ begin, off int }
+
+// insertAll enters the suffixes of s that packDomainName wrote out.
+func (m compressionMap) insertAll(s string, suffixes []suffixOffset) {
+	for _, x := range suffixes {
+		m.insert(s[x.begin:], x.off)
+	}
+}
+
 func (m compressionMap) find(s string) (int, bool) {
 	if m.ext != nil {
 		pos, ok := m.ext[s]
@@ -238,6 +249,13 @@ func packDomainName(s string, msg []byte, off int, compression compressionMap, c
 		compOff   int
 		bs        []byte
 		wasDot    bool
+
+		// The suffixes written out by this call, which later names can
+		// point to. They enter the compression map only when the whole
+		// name has been accepted and written: a call that fails (a bad
+		// label further on, no room) leaves the caller's map as it was.
+		suffixBuf [8]suffixOffset
+		suffixes  = suffixBuf[:0]
 	)
 loop:
 	for i := 0; i < ls; i++ {
@@ -311,7 +329,7 @@ loop:
 					}
 				} else if off < maxCompressionOffset {
 					// Only offsets smaller than maxCompressionOffset can be used.
-					compression.insert(s[compBegin:], off)
+					suffixes = append(suffixes, suffixOffset{compBegin, off})
 				}
 			}
 
@@ -341,12 +359,14 @@ loop:
 	if pointer != -1 {
 		// We have two bytes (14 bits) to put the pointer in
 		binary.BigEndian.PutUint16(msg[off:], uint16(pointer^0xC000))
+		compression.insertAll(s, suffixes)
 		return off + 2, nil
 	}
 
 	// Trailing root label
 	if off < len(msg) {
 		msg[off] = 0
+		compression.insertAll(s, suffixes)
 		return off + 1, nil
 	}
 
